@@ -148,6 +148,7 @@ def shard(ctx):
                     pi += 1
                 rtext = "".join(probes)
                 outs = {}
+                refused = {}
                 # validate (file, libyaml loader)
                 ext = ".json" if sname.startswith("json") else ".yaml"
                 r = ctx.w.run({"k": "cli", "argv": ["validate", "-r", "{S}/r.guard", "-d", "{S}/d" + ext, "--structured", "-S", "none", "-o", "json"],
@@ -157,6 +158,8 @@ def shard(ctx):
                         outs["validate"] = obs.report_statuses(json.loads(r["out"])[0])
                     except (ValueError, IndexError):
                         pass
+                else:
+                    refused["validate"] = r
                 # payload
                 r = ctx.w.run({"k": "cli", "argv": ["validate", "--payload", "--structured", "-S", "none", "-o", "json"], "stdin": json.dumps({"rules": [rtext], "data": [text]})})
                 if r.get("r") == "ok":
@@ -164,10 +167,14 @@ def shard(ctx):
                         outs["payload"] = obs.report_statuses(json.loads(r["out"])[0])
                     except (ValueError, IndexError):
                         pass
+                else:
+                    refused["payload"] = r
                 # library
                 r = ctx.w.run({"k": "rc", "data": text, "rules": rtext, "verbose": False})
                 if r.get("r") == "ok":
                     outs["run_checks"] = obs.report_statuses(json.loads(r["out"]))
+                else:
+                    refused["run_checks"] = r
                 # test (input embedded in a YAML test spec: the document text indented under `input:`)
                 names = ["same"] + ["p%d" % i for i in range(pi)]
                 if sname in ("yaml-block", "json-pretty", "json-compact", "yaml-flow"):
@@ -184,6 +191,15 @@ def shard(ctx):
                             outs["test"] = st
                         except (ValueError, KeyError, IndexError):
                             pass
+                # a front end that refuses a text the others evaluate
+                for fe, rr in refused.items():
+                    if not outs:
+                        break
+                    if core.crash_signature(rr):
+                        ctx.inconclusive("crash")
+                        continue
+                    ctx.violation("verdict:%s:%s:refused" % (fe, sname), "%s refuses a %s text that %s evaluate: %s" % (fe, sname, sorted(outs), (rr.get("emsg") or rr.get("err") or "")[:200]),
+                                  {"kind": "verdict", "frontend": fe, "style": sname, "text": text, "rules": rtext, "model": model})
                 for fe, st in outs.items():
                     ctx.res.cases += 1
                     ctx.res.extra.setdefault("frontends", set()).add(fe)
